@@ -602,6 +602,10 @@ class TokenStream:
                 tok = tokbuf.popleft()
                 if tok.type not in self._discard_types_except_newline:
                     return tok
+                # a comment that runs to the end of its line (the comment
+                # tokens include that newline) ends the line as well
+                if tok.type != "WHITESPACE" and tok.value.endswith("\n"):
+                    return tok
 
             if not self._fill_tokbuf(tokbuf):
                 return None
